@@ -300,6 +300,80 @@ fn emit_prog(sink: &mut Sink, prog: &mut Stream, pre: &Pre, out: &RunOut, post: 
     }
 }
 
+/// The refusal of version numbers in the detached range (commit_transaction: is_detached_version(target_version)):
+/// a table whose latest attached version is 2^63 - 1. The append must fail after writing its files and the
+/// transaction file, publish nothing (in particular no `d<2^63>.manifest`), and the model's program for the
+/// same store is exactly the recorded calls.
+async fn refusal_arm(sink: &mut Sink, prog: &mut Stream, pre: &Pre) {
+    let cfg = pre.env.cfg;
+    let big: u64 = (1u64 << 63) - 1;
+    let env = pre.env.fork();
+    if let Err(e) = table::plant_version(&env, big).await {
+        sink.oracle_fail(None, &format!("refusal arm: cannot plant version 2^63-1 on {}: {e}", cfg.name()), json!({"cfg": cfg.name()}));
+        return;
+    }
+    let before = env.list_all().await;
+    let base = Pre { env, snap: pre.snap.clone(), listing: before.clone(), detached: pre.detached.clone() };
+    let out = run_once(&base.env, "append", Plan::Clean, 0, false).await;
+    let after = out.env.list_all().await;
+    let vers_before: Vec<&String> = before.iter().filter(|p| p.starts_with("_versions/")).collect();
+    let vers_after: Vec<&String> = after.iter().filter(|p| p.starts_with("_versions/")).collect();
+    let human: Vec<serde_json::Value> = out.trace.iter().map(|e| json!({"kind": e.kind, "a": out.env.rel(&e.a), "effect": e.effect})).collect();
+    let case = json!({"cfg": cfg.name(), "op": "append on a table whose latest version is 2^63-1", "result": format!("{:?}", out.res), "trace": human, "versions_dir_after": vers_after});
+    sink.count("refusal-arm");
+    let latest_after = out.env.open(None, None).await.map(|d| d.version().version).unwrap_or(0);
+    let mut bad = None;
+    match &out.res {
+        Some(Err(e)) if e.contains("detached") => {}
+        other => bad = Some(format!("append at version 2^63-1 must be refused, got {:?}", other)),
+    }
+    if vers_before != vers_after {
+        bad = Some(format!("a refused commit changed _versions: {:?} -> {:?}", vers_before, vers_after));
+    }
+    if latest_after != big {
+        bad = Some(format!("latest version after the refused commit is {latest_after}, expected {big}"));
+    }
+    match bad {
+        Some(w) => sink.oracle_fail(None, &format!("refusal arm on {}: {w}", cfg.name()), case.clone()),
+        None => sink.oracle_ok(),
+    }
+    // model: the program for this store is the file puts only
+    let mut ids = Ids::new(&base.listing);
+    let latest_refs: Vec<String> = pre.snap.versions.last().map(|s| s.refs.clone()).unwrap_or_default();
+    let mut items = vec![];
+    for l in &base.listing {
+        match classify(l) {
+            PK::File => items.push(format!("({}, (0, []))", pc((0, ids.id(l))))),
+            PK::Man(v) => {
+                let refs = if v == big { latest_refs.clone() } else { pre.snap.versions.iter().find(|s| s.version == v).map(|s| s.refs.clone()).unwrap_or_default() };
+                let r: Vec<u64> = refs.iter().map(|p| ids.id(p)).collect();
+                items.push(format!("({}, ({}, {}))", pc((1, v)), v, coq::nlist(r.iter())));
+            }
+            PK::Det(v) => {
+                let refs = pre.detached.iter().find(|d| d.0 == v).map(|d| d.1.clone()).unwrap_or_default();
+                let r: Vec<u64> = refs.iter().map(|p| ids.id(p)).collect();
+                items.push(format!("({}, ({}, {}))", pc((2, v)), v, coq::nlist(r.iter())));
+            }
+            PK::Tmp(v) => items.push(format!("({}, (0, []))", pc((3, v)))),
+        }
+    }
+    let mut calls = vec![];
+    let mut nfiles = 0usize;
+    for e in out.trace.iter().filter(|e| e.effect) {
+        let a = ids.code(&out.env.rel(&e.a));
+        let b = if e.b.is_empty() { (0, 0) } else { ids.code(&out.env.rel(&e.b)) };
+        if a.0 == 0 {
+            nfiles += 1;
+        }
+        calls.push(format!("({}, ({}, {}))", e.kind, pc(a), pc(b)));
+    }
+    let flags: Vec<String> = (0..nfiles.saturating_sub(1)).map(|_| coq::b(true)).collect();
+    let keep: Vec<String> = latest_refs.iter().map(|_| coq::b(true)).collect();
+    let input = format!("({}, ({}, (({}, (0, 0)), ({}, []))))", coq::list(items), cfg.hcode(), coq::list(flags), coq::list(keep));
+    let output = format!("({}, (0, []))", coq::list(calls));
+    prog.push(input, output, case);
+}
+
 const ITY: &str = "(list ((N * N) * (N * list N)) * list (N * ((N * N) * (N * N)))) * (bool * list (N * list N))";
 const OTY: &str = "N * list N";
 
@@ -470,20 +544,28 @@ fn main() {
     let mut sink = Sink::new("C01", &args.out);
     let mut rng = Rng::new(args.seed);
     let mut replay = Stream::new("replay", REQ, "chk_replay", ITY, OTY);
-    replay.shard = 30;
+    replay.shard = 150;
     let mut prog = Stream::new("prog", REQ, "chk_prog", P_ITY, P_OTY);
-    prog.shard = 60;
+    prog.shard = 150;
 
     let cfgs: Vec<Cfg> = if args.thorough() { vec![Cfg::LocalRename, Cfg::MemCondPut, Cfg::LocalLock, Cfg::LocalCondPut] } else { vec![Cfg::LocalRename, Cfg::MemCondPut, Cfg::LocalLock] };
     let t0 = std::time::Instant::now();
-    for cfg in cfgs {
+    let mut plans: Vec<(Cfg, bool)> = cfgs.iter().map(|c| (*c, false)).collect();
+    if args.thorough() {
+        plans.push((Cfg::MemCondPut, true));
+        plans.push((Cfg::LocalRename, true));
+    }
+    for (cfg, long) in plans {
         rt.block_on(async {
-            let env = build_prestate(cfg).await;
+            let env = build_prestate(cfg, long).await;
             let snap = snapshot(&env).await.expect("pre-state snapshot");
             let listing = env.list_all().await;
             let detached: Vec<(u64, Vec<String>)> = detached_in(&env, &listing).await.expect("pre-state detached").into_iter().map(|d| (d.0, d.1)).collect();
             let pre = Pre { env, snap, listing, detached };
             let empty_env = Env::empty(cfg);
+            if cfg != Cfg::LocalLock && only_op.is_none() {
+                refusal_arm(&mut sink, &mut prog, &pre).await;
+            }
             let pre_empty = Pre { env: empty_env, snap: Snap { latest: 0, versions: vec![] }, listing: vec![], detached: vec![] };
             for op in OPS {
                 if let Some(o) = &only_op {
@@ -498,8 +580,12 @@ fn main() {
                 if cfg == Cfg::LocalLock && !args.thorough() && !["append", "delete", "create", "compact", "detached"].contains(&op) {
                     continue;
                 }
+                if long && ["create", "overwrite_uri", "restore"].contains(&op) {
+                    continue;
+                }
                 let p = if op == "create" { &pre_empty } else { &pre };
-                let variant = rng.below(4);
+                let variants: Vec<u64> = if args.thorough() && !long { vec![0, 1, 2, 3] } else { vec![rng.below(4)] };
+                for variant in variants {
                 // 1. clean run
                 let clean_out = run_once(&p.env, op, Plan::Clean, variant, false).await;
                 if dump {
@@ -529,9 +615,10 @@ fn main() {
                         judge_and_emit(&mut sink, &mut replay, p, Some(&clean), &out, op, &label, false, false).await;
                     }
                 }
+                }
             }
         });
-        eprintln!("[hx_c01] {} done at {:.1}s", cfg.name(), t0.elapsed().as_secs_f64());
+        eprintln!("[hx_c01] {}{} done at {:.1}s", cfg.name(), if long { " (long history)" } else { "" }, t0.elapsed().as_secs_f64());
     }
     sink.add(replay);
     sink.add(prog);
